@@ -59,6 +59,10 @@ checks = {
    technique="exhaustive enumeration of the thread database x configuration menus against independent standard tables and lattice evaluation",
    text="Every key of the thread database (via an export shim; 82 today): the name must parse under the metric / UNC / UNF / NPT grammar and radius, pitch, taper and units must equal an independently typed table of the standard series; ToMillimetre scales by 25.4, is idempotent, and neither it nor ThreadedCylinderParms.Object may change what a later lookup returns (history). Screw3D(ISOThread) for starts {1,-1,2,-2,3}: f(p) == f(rotate(p, dphi) + starts*pitch*dphi/2pi z) for 4 angles and f(p) == f(p + pitch z) on a 13x12x49 cylindrical lattice at least one pitch from the ends (5 threads quick, all thorough). Mating for EVERY entry (tapered too): with bolt/nut tolerances (0,0),(0.05p,0),(0,0.05p),(0.2p,0.2p) no lattice point (33 radii across the thread depth x 8 angles x 48 steps/pitch) is inside both the external thread and the material left by the internal cutter; same against obj.Nut.",
    note="space sampled on a cylindrical lattice; standard tables typed into the harness"),
+ "C19": dict(engine="L", design="3/C19",
+   technique="exhaustive sign-table enumeration on trilinear lookup fields + bounded analytic families through the real dual-contouring renderers",
+   text="DualContouringV1 (no simplification, LockVertices) and DualContouringV2 (default, FarAway 0.25, CenterPush 0.1): every one of the 2^8 sign tables of a 2x2x2 interior corner block and 2^12 of a 3x2x2 block (all orientations and settings thorough) as trilinear lookup fields with a positive boundary layer; 18 analytic shapes (smooth, sharp, rotated, CSG, six crescents, cubes/spheres with faces exactly on lattice points at non-dyadic cell sizes) in enlarged sampling cubes at 3-7 resolutions. Oracle: welded directed-edge balance, positive volume, every vertex inside the sampled box and with |f(v)| <= one cell diagonal, two consecutive runs identical.",
+   note="settings with locking/clamping off are outside the property and not run; |f(v)| <= diagonal is a necessary condition for CSG shapes"),
 }
 props = [json.loads(l) for l in open(os.path.join(V, "properties.jsonl"))]
 pending_reason = "check not built yet in this session (work in progress, see DESIGN.md section 3 for the planned bounded-exhaustive check)"
